@@ -9,27 +9,24 @@ Open Scope Z_scope.
 Definition allele := (option Z * bool)%type.
 Definition genotype := list allele.
 
-(* i8 wrap-around *)
-Definition wrap8 (n : Z) : Z := to_signed W8 (n mod 256).
-
-(* encode_genotype::encode.  i8::try_from(position) -> InvalidData; `i + 1` overflows (panic with
-   overflow checks) at 127; `<< 1` wraps silently; a missing allele is 0 whatever its phasing. *)
+(* encode_genotype::encode with encode_allele_position.  i8::try_from(position) -> InvalidData;
+   (position + 1) * 2 is computed with checked arithmetic -> InvalidInput from 63 on; the phase
+   bit is set on an even number (`n |= 1` is `n + 1`), for missing alleles as well. *)
 Definition enc_allele (a : allele) : res Z :=
+  let ph := if snd a then 1 else 0 in
   match fst a with
-  | None => Ok 0
+  | None => Ok ph
   | Some p =>
     if 127 <? p then ErrData
-    else if p =? 127 then Panic
-    else let n := wrap8 ((p + 1) * 2) in
-         Ok (if snd a then wrap8 (Z.lor n 1) else n)
+    else if 63 <=? p then ErrInput
+    else Ok ((p + 1) * 2 + ph)
   end.
 
-(* the bytes of one sample: the padding loop sits INSIDE the allele loop (as in the source) *)
+(* the bytes of one sample: its alleles, then the EndOfVector padding *)
 Definition gt_sample_bytes (m : nat) (raw : list Z) : res (list N) :=
-  let pad := (m - length raw)%nat in
   bind (map_res (fun n => if n <? 0 then ErrInput        (* u8::try_from(n) *)
-                          else Ok (Z.to_N n :: repeat 129%N pad)) raw)
-       (fun ll => Ok (concat ll)).
+                          else Ok (Z.to_N n)) raw)
+       (fun bs => Ok (bs ++ repeat 129%N (m - length raw))).
 
 Definition gt_max_len (raws : list (list Z)) : nat := fold_left (fun m r => Nat.max m (length r)) raws 0%nat.
 
